@@ -289,13 +289,13 @@ Theorem C12_merge3_no_diverge_partial :
 Proof. exact (@Merge3Proofs.merge3_no_diverge). Qed.
 Print Assumptions C12_merge3_no_diverge_partial.
 
-(* PARTIAL (owner theorem re-exported). the formatter (Yaml/Fmt.v, C20) returns Ok when no sequence sits
-   in a keyed whitelisted list; the model has no fuel, so it cannot Diverge *)
-Theorem C12_fmt_node_partial :
+(* FULL since /repo fix d64b8e2 (owner theorem re-exported). the formatter (Yaml/Fmt.v, C20) returns Ok on every
+   node, schema and path, whatever the sort function; the model has no fuel, so it cannot Diverge *)
+Theorem C12_total_core_fmt_node :
   forall nonstr kind api srt n s p,
-    Fmt.keyed_ok kind api p n = true -> exists n', Fmt.fmt_node nonstr srt kind api s p n = Ok n'.
+    exists n', Fmt.fmt_node nonstr srt kind api s p n = Ok n'.
 Proof. exact FmtProofs.fmt_no_panic. Qed.
-Print Assumptions C12_fmt_node_partial.
+Print Assumptions C12_total_core_fmt_node.
 
 (* ---- (2) explicit panic / fatal / exit / unchecked-assertion sites ---------------------------- *)
 
